@@ -5,7 +5,7 @@ OUT ?= build/main
 CXX ?= g++
 SAN ?= -fsanitize=address,undefined -fno-sanitize-recover=undefined
 OPT ?= -O1
-COMMON = $(OPT) -g $(SAN) -fno-omit-frame-pointer -DEVENTPP_VERIF -I$(REPO)/include -MMD -MP -Wall -Wextra -Wno-unused-parameter
+COMMON = $(OPT) -g $(SAN) -fno-omit-frame-pointer -DEVENTPP_VERIF -I$(REPO)/include -MMD -MP -Wall -Wextra -Wno-unused-parameter -Wno-mismatched-new-delete
 
 CON_BINS = con_list con_queue
 SEQ_BINS =
@@ -30,3 +30,14 @@ clean:
 	rm -rf build
 
 -include $(wildcard $(OUT)/*.d)
+
+# ---- multi-variant SEQ engines: one object per policy variant (parallel compilation), one binary
+SEQ_LIST_V = 0 1 2 3 4 5 6 7 8
+$(OUT)/seq_list.v%.o: engines/seq_list.cpp
+	@mkdir -p $(OUT)
+	$(CXX) -std=c++11 $(COMMON) -DSEQ_VARIANT=$* -DVERIF_SECONDARY_TU -c -o $@ $<
+$(OUT)/seq_list.main.o: engines/seq_list.cpp
+	@mkdir -p $(OUT)
+	$(CXX) -std=c++11 $(COMMON) -DSEQ_MAIN -c -o $@ $<
+$(OUT)/seq_list: $(OUT)/seq_list.main.o $(addprefix $(OUT)/seq_list.v,$(addsuffix .o,$(SEQ_LIST_V)))
+	$(CXX) $(SAN) -o $@ $^
